@@ -105,6 +105,13 @@ func Catalogue(prop, tier string) []Cfg {
 		c = pc("v1", []uint{2, 1}, 3, "fair", []int{1}, []int{1}, "pool", "")
 		c.Script, c.Ops = 2, []int{0, 1, 3}
 		add(c)
+		// three priorities: the lowest one is removed while the highest has a backlog
+		c = pc("v1", []uint{3, 2, 1}, 2, "fair", []int{3, 1, 1}, []int{3, 0, 0}, "rr", "")
+		c.Script, c.Ops = 1, []int{3}
+		add(c)
+		c = pc("v1", []uint{3, 2, 1}, 6, "rate", []int{4, 1, 1}, []int{4, 0, 1}, "rr", "")
+		c.Script, c.Ops = 1, []int{3}
+		add(c)
 	}
 	switch prop {
 	case "C01", "C02", "C07":
@@ -198,6 +205,15 @@ func Catalogue(prop, tier string) []Cfg {
 			{"v1", []uint{2, 1}, 2, "fair", "rr"}, {"v1", []uint{2, 1}, 3, "rate", "rr"}, {"v1", []uint{3, 2, 1}, 3, "fair", "rr"},
 		} {
 			add(pc(e.d, e.p, e.h, e.div, []int{1}, []int{0}, e.env, "endless"))
+		}
+		// v1: re-registering a priority's own channel must not change the shares
+		{
+			c := pc("v1", []uint{2, 1}, 3, "rate", []int{1}, []int{0}, "rr", "endless")
+			c.Script, c.Ops = 1, []int{5}
+			add(c)
+			c = pc("v1", []uint{7, 5, 3, 1}, 8, "rate", []int{1}, []int{0}, "rr", "endless")
+			c.Script, c.Ops = 1, []int{5}
+			add(c)
 		}
 		// priority values at the top of the type
 		add(pc("v2", []uint{1<<64 - 1, 1}, 3, "fair", []int{1}, []int{0}, "rr", "endless"))
@@ -294,6 +310,12 @@ func Catalogue(prop, tier string) []Cfg {
 			add(c)
 			c = pc(d, []uint{2, 1}, 2, "fair", []int{0, 2}, []int{2}, "pool", "")
 			c.Fault = true
+			add(c)
+		}
+		// v1: AddInput for a configured priority that the divider leaves without an entry
+		{
+			c := pc("v1", []uint{7, 5, 3, 1}, 8, "rate", []int{1}, []int{1, 0, 0, 1}, "rr", "")
+			c.Script, c.Ops = 1, []int{5}
 			add(c)
 		}
 		// divider contract with priority values at the top of the type (no fault needed)
@@ -425,6 +447,15 @@ func Catalogue(prop, tier string) []Cfg {
 				add(jc(disc, 3, false, 1, 5, 4, 50, []int64{0, 3, 5}, []int64{0}, nil))
 				add(jc(disc, 2, true, 1, 4, 3, 100, []int64{0, 2, 4}, []int64{0}, []int64{0, 4}))
 			}
+			// unite: short input slices whose capacity exceeds JoinSize
+			for _, j := range []int{2, 3} {
+				x := jc("unite2", j, false, 1, 2*j+2, 0, 0, nil, nil, nil)
+				x.Lens, x.Mode = []int{0, 1, j - 1, j + 1}, "sparecap"
+				add(x)
+				x = jc("unite2", j, true, 0, 2*j+1, 4, 25, []int64{0, 5}, []int64{0}, nil)
+				x.Lens, x.Mode = []int{1, j - 1, j}, "sparecap"
+				add(x)
+			}
 			// unite: oversize slices forwarded while the reader stalls for about a timeout
 			for _, nocopy := range []bool{false, true} {
 				u := jc("unite2", 2, nocopy, 0, 7, 4, 25, []int64{0}, []int64{0, 5}, nil)
@@ -462,6 +493,15 @@ func Catalogue(prop, tier string) []Cfg {
 				c := jc(disc, 2, false, 2, 4, 8, 25, []int64{0, 1, 5, 9}, []int64{0}, []int64{0})
 				c.Mode, c.Tail = "flush", 20
 				add(c)
+				// a second reader of the same input channel takes values away at arbitrary moments
+				for _, cp := range []int{1, 3} {
+					c = jc(disc, 4, false, cp, 5, 4, 25, []int64{0, 1}, []int64{0}, []int64{0})
+					c.Mode, c.Tail = "thief", 12
+					if disc == "unite2" {
+						c.Lens = []int{1}
+					}
+					add(c)
+				}
 				// the whole range of TimeoutInaccuracy: divider 100, 10, 3, 2, 1
 				for _, tc := range []struct {
 					t     int64
@@ -501,6 +541,11 @@ func Catalogue(prop, tier string) []Cfg {
 				}
 			}
 		case "C11":
+			for _, j := range []int{2, 3} {
+				x := jc("unite2", j, false, 1, 2*j+2, 0, 0, nil, nil, nil)
+				x.Lens, x.Mode = []int{0, 1, j - 1, j + 1}, "sparecap"
+				add(x)
+			}
 			for _, j := range []int{1, 2, 3} {
 				for _, nocopy := range []bool{false, true} {
 					add(jc("unite2", j, nocopy, 1, 2*j+2, 0, 0, nil, nil, nil))
@@ -526,6 +571,15 @@ func Catalogue(prop, tier string) []Cfg {
 					add(lc(q, i, int(q)+1, n, []int64{0, 3 * i}, []int64{0, i}, ""))
 					add(lc(q, i, 1, n, []int64{0, 1}, []int64{0, 1, i}, ""))
 				}
+			}
+			// intervals at the top of the type ("pass Quantity elements, then nothing")
+			for _, i := range []int64{1<<63 - 1, 1<<63 - 2, 1 << 62} {
+				add(lc(2, i, 4, 4, nil, []int64{0}, "prefill"))
+				add(lc(1, i, 0, 2, []int64{0, 5}, []int64{0, 2}, "")) // two rounds: a third would lie beyond the clock's range
+				// real clocks always advance between two reads: one late tick anywhere
+				l := lc(2, i, 3, 3, nil, []int64{0}, "prefill")
+				l.Late, l.Horizon = 1, 3
+				add(l)
 			}
 			// prefilled bursts
 			add(lc(2, 3, 7, 7, nil, []int64{0, 1, 3}, "prefill"))
@@ -698,6 +752,13 @@ func Catalogue(prop, tier string) []Cfg {
 			}
 			add(x)
 			if disc == "unite2" {
+				// input slices (also empty ones) whose capacity exceeds JoinSize
+				for _, j := range []int{2, 3} {
+					for _, nocopy := range []bool{false, true} {
+						x := Cfg{Harness: "join", Disc: disc, J: j, NoCopy: nocopy, Cap: []int{1}, N: []int{2*j + 1}, Lens: []int{0, 1, j - 1, j + 1}, Mode: "sparecap", Bound: -1}
+						add(x)
+					}
+				}
 				// input slices with spare capacity that holds later, still pending input
 				for _, fl := range []int{1, 2} {
 					for _, nocopy := range []bool{false, true} {
